@@ -44,10 +44,11 @@ MANIFEST = dict(
           "non-negative), collider_aabb_spec over the collider sum type, intersect_imp_aabbOverlap; counterexample "
           "theorems for ellipsoid_aabb under rotation (known finding) and for RigidBody.aabb before its repair; "
           "the model of containment.py / Collider.aabb / Margin.aabb / RigidBody.aabb is compared with the "
-          "implementation on lattice (exact Rat) and random poses; sampling oracle on the real code."),
+          "implementation on lattice (exact Rat) and random poses; sampling oracle on the real code. " 
+          "Link theorems (regenerated from today's source by py2lean on every run, D3/Gen/Link04.lean) tie containment.sphere_aabb, capsule_aabb, cone_aabb (rfl, every input) and disk_aabb, cylinder_aabb (on the model's non-NaN case, guards as explicit hypotheses) to the model. "),
     note=("trusted: Lean kernel + Mathlib, axioms propext/Classical.choice/Quot.sound; exact-real semantics (float "
           "rounding not modelled); correspondence harness (sampling)."),
-    technique="Lean 4 proof on hand-written model + correspondence (Rat-exact on rational rotations, Float on random poses)",
+    technique="Lean 4 proof on hand-written model + correspondence (Rat-exact on rational rotations, Float on random poses) + py2lean-regenerated kernels linked to the model by theorem",
     design="§7 C04")
 
 F_ELL = "F-ellipsoid-aabb"
